@@ -143,8 +143,15 @@ def replay_fn_ifeq(a, b, n):
 ''')
     shapes = {"K": "K=V", "F": "K", "D": "#default=V", "X": "#default"}
     nmax = 2 if quick else 3
-    for n in range(1, nmax + 1):
-        for sk in itertools.product("KFDX", repeat=n):
+    skeletons = [sk for n in range(1, nmax + 1) for sk in itertools.product("KFDX", repeat=n)]
+    if quick:
+        # fall-through groups need three items to show that the "matched" flag is sticky: every 3-item skeleton that starts
+        # with a bare case, and the 4-item groups
+        skeletons += [sk for sk in itertools.product("KFDX", repeat=3) if sk[0] == "F"] + [tuple("FFFK"), tuple("FFFD"), tuple("FKFK")]
+    else:
+        skeletons += [tuple("FFFK"), tuple("FFFD"), tuple("FKFK"), tuple("FFFFK")]
+    if True:
+        for sk in skeletons:
             ks = [f"k{i}" for i, s in enumerate(sk) if s in "KF"]
             params = ", ".join(["val: str"] + [f"{k}: str" for k in ks])
             pre = " and ".join(['len(val) == 1 and val[0] in "ab"'] + [f'len({k}) == 1 and {k}[0] in "ab"' for k in ks])
@@ -463,7 +470,7 @@ def run(rep: C.Report) -> None:
                 "^body_": dict(name="Ob1 only the includable part of a template body is transcluded", functions=["core.py:Wtp._template_to_body"], bounds="4 (thorough 11) body skeletons with one symbolic filler character over {a,space,newline,<,>,-,/} before, between and after the tags"),
                 "^bind_": dict(name="Ob7 an argument passed as name=value is found by {{{name}}}: the expander's key and the reference's key agree", functions=["core.py:Wtp.expand argument loop (AST slice)", "core.py:Wtp.expand.expand_args (AST slice)"], bounds=f"names of 1..{2 if quick else 3} symbolic chars over {{0,1,a,space}}"),
                 "^param_": dict(name="Ob2 parameter references: trimmed name, positional numerals, default, literal when undefined", functions=["core.py:Wtp.expand.expand_args (AST slice)"], bounds=f"names of 1..{3 if quick else 4} symbolic chars over {{space,1,2,a,b,newline}}, with/without default, fixed argument map"),
-                "^fn_|^sw_": dict(name="Ob3 #if / #ifeq / #switch follow the ParserFunctions rules", functions=["parserfns.py:if_fn", "parserfns.py:ifeq_fn", "parserfns.py:switch_fn"], bounds=f"#if/#ifeq: 0..4 arguments <= 2 symbolic chars; #switch: every case skeleton of 1..{2 if quick else 3} items over {{k=v, fall-through, #default=v, #default}} with symbolic keys and value"),
+                "^fn_|^sw_": dict(name="Ob3 #if / #ifeq / #switch follow the ParserFunctions rules", functions=["parserfns.py:if_fn", "parserfns.py:ifeq_fn", "parserfns.py:switch_fn"], bounds=f"#if/#ifeq: 0..4 arguments <= 2 symbolic chars; #switch: every case skeleton of 1..{2 if quick else 3} items over {{k=v, fall-through, #default=v, #default}} with symbolic keys and value, plus {'the 3-item skeletons that start with a fall-through case and three 4-item groups' if quick else 'four longer fall-through groups'}"),
                 "^autonewline": dict(name="Ob4 automatic newline before list/table markers", functions=["common.py:add_newline_to_expansion"], bounds="t <= 3 symbolic chars (full Unicode)"),
             },
             timeout=90 if quick else 400,
